@@ -72,8 +72,11 @@ mkdecl(char *name, enum declkind k, struct type *t, enum typequal tq, enum linka
 	d->linkage = linkage;
 	d->type = t;
 	d->qual = tq;
-	if (k == DECLOBJECT && t)
-		d->u.obj.align = t->align;
+	if (k == DECLOBJECT) {
+		if (t)
+			d->u.obj.align = t->align;
+		d->u.obj.loc = tok.loc;
+	}
 
 	return d;
 }
@@ -1030,7 +1033,7 @@ static void
 defineobj(struct decl *d, struct init *init, bool hasinit, struct func *f)
 {
 	if (d->type->incomplete)
-		error(&tok.loc, "object '%s' has incomplete type", d->name);
+		error(&d->u.obj.loc, "object '%s' has incomplete type", d->name);
 	if (d->u.obj.align < d->type->align)
 		d->u.obj.align = d->type->align;
 	if (d->u.obj.storage == SDAUTO)
